@@ -1611,7 +1611,6 @@ def _ctgrind(ctx, variant):
 def check_C07(ctx):
     vs = ['prod', 'clang-O3'] + (['gcc-O2', 'clang-O2', 'gcc-O3'] if ctx.tier == 'thorough' else [])
     ctx.build(['prod', 'san'] + [v for v in vs if v != 'prod'])
-    ctx.lean()
     for v in vs: _ctgrind(ctx, v)
     import taint
     taint.check(ctx)
